@@ -497,6 +497,7 @@ func FuzzSimboxAdd(f *testing.F) {
 		f.Add(s)
 	}
 	f.Fuzz(func(t *testing.T, s string) {
+		pbt.FuzzTrace(s)
 		if msg := fuzzOne(s); msg != "" {
 			t.Fatal(msg)
 		}
